@@ -117,6 +117,10 @@ def r1_tables(program, folder, rep):
     if len(subs) != 1 or not isinstance(subs[0].slice, ast.Tuple):
         raise AnalysisError("from_vector: lookup shape changed")
     kx, ky = [chain(e) for e in subs[0].slice.elts]
+    if kx is None or ky is None:
+        raise AnalysisError("from_vector: the components looked up are not "
+                            "plain variables (folded by a helper?); that "
+                            "form is not analysed")
     X, Y = Poly.atom(kx), Poly.atom(ky)
     it = Interp(fn, candidates=[le(-1, X), le(X, 1), le(-1, Y), le(Y, 1)])
     node = it.cfg.node_containing(subs[0])
@@ -174,40 +178,100 @@ def r2_walk(program, folder, rep):
     E = T._elem(T.term(dim_l.iter, cfg.loop_head[id(dim_l)]))
     DIM, MAG = T._comp(E, 0, 2), T._comp(E, 1, 2)
     want = {0: (1, 0), 1: (0, 1), 2: (-1, -1)}
-    bad_step = bad_label = False
-    xname = yname = None
-    if isinstance(acall.args[0].elts[1], ast.Tuple):
-        xname, yname = [chain(e) for e in acall.args[0].elts[1].elts]
-    pos = ("param", "magnitude")
+    bad_step = bad_label = bad_wrap = False
+    why = ""
+    ps_ = formals(fn)
+    if "width" not in ps_ or "height" not in ps_:
+        raise AnalysisError("longest_dimension_first: width / height "
+                            "parameters")
+    SIZES = (("param", "width"), ("param", "height"))
+    pos_expr = acall.args[0].elts[1] if isinstance(
+        acall.args[0], ast.Tuple) and len(acall.args[0].elts) == 2 else None
+    if pos_expr is None:
+        raise AnalysisError("longest_dimension_first: the hop recorded")
+
+    def state_of(base):
+        """(merge, component or None) when ``base`` reads the loop-carried
+        position."""
+        if base[0] == "mu":
+            return base[1], None
+        if base[0] == "comp" and base[1][0] == "mu":
+            return base[1][1], base[2]
+        return None
     for k in (0, 1, 2):
         for sgn in (1, -1):
-            hyps = [(mk_cmp("Eq", DIM, ("const", j)), j == k)
+            dims = [(mk_cmp("Eq", DIM, ("const", j)), j == k)
                     for j in range(k + 1)]
-            hyps += [(mk_cmp("Lt", ("const", 0), MAG), sgn == 1),
+            dims += [(mk_cmp("Lt", ("const", 0), MAG), sgn == 1),
                      (mk_cmp("Eq", MAG, ("const", 0)), False)]
-            H = T.under(*hyps)
-            lab = H.term(fv[0].args[0], fnode)
             exp = ("tuple", ("const", sgn * want[k][0]),
                    ("const", sgn * want[k][1]))
-            if _fold_t(lab) != exp:
-                bad_label = True
-            # what is added to the position in one hop
-            for var, comp in ((xname, 0), (yname, 1)):
-                adds = []
-                for b_ in H.binds:
-                    if b_.var != var or b_.mode not in ("assign", "aug") or \
-                            not _within(b_.node.ast, hop_l) or \
-                            not H.live(b_.node):
-                        continue
-                    t = _fold_t(H._bind_term(b_))
-                    if t[0] == "binop" and t[1] == "Add":
-                        d = [z for z in (t[2], t[3]) if z[0] == "const"]
-                        adds.append(d[0][1] if len(d) == 1 else None)
-                if adds != [exp[1 + comp][1]]:
-                    bad_step = True
+            for wn in (True, False):
+                for hn in (True, False):
+                    H = T.under(*(dims + [(is_none(SIZES[0]), wn),
+                                          (is_none(SIZES[1]), hn)]))
+                    lab = H.term(fv[0].args[0], fnode)
+                    if _fold_t(lab) != exp:
+                        bad_label = True
+                    rec = _fold_t(H.term(pos_expr, an))
+                    if rec[0] != "tuple" or len(rec) != 3:
+                        raise AnalysisError(
+                            "longest_dimension_first: the position recorded "
+                            "with a hop is not a pair in this form")
+                    for i, none in ((0, wn), (1, hn)):
+                        c = rec[1 + i]
+                        if not none:
+                            if not (c[0] == "binop" and c[1] == "Mod" and
+                                    c[3] == SIZES[i]):
+                                bad_wrap = True
+                                why = "component %d not taken modulo %s" % (
+                                    i, SIZES[i][1])
+                                continue
+                            c = c[2]
+                        elif c[0] == "binop" and c[1] == "Mod":
+                            bad_wrap = True
+                            continue
+                        d = exp[1 + i][1]
+                        base = c
+                        if c[0] == "binop" and c[1] == "Add" and any(
+                                z[0] == "const" for z in (c[2], c[3])):
+                            cst = [z for z in (c[2], c[3])
+                                   if z[0] == "const"][0]
+                            base = c[3] if c[2] is cst else c[2]
+                            if cst[1] != d:
+                                bad_step = True
+                                why = "dimension %d adds %r to component " \
+                                    "%d" % (k, cst[1], i)
+                        elif d != 0:
+                            bad_step = True
+                            why = "dimension %d does not move component " \
+                                "%d" % (k, i)
+                        st = state_of(base)
+                        if st is None:
+                            raise AnalysisError(
+                                "longest_dimension_first: the position a "
+                                "hop starts from is not the loop-carried "
+                                "position in this form")
+                        mu, comp = st
+                        ups = [mu.T.binds[j] for j in mu.ids
+                               if _within(mu.T.binds[j].node.ast, hop_l) and
+                               mu.T.binds[j].mode != "iter"]
+                        want_v = rec[1 + i] if comp is None else rec
+                        for b_ in ups:
+                            if _fold_t(H._bind_term(b_)) != want_v:
+                                bad_step = True
+                                why = "the position carried to the next " \
+                                    "hop is not the one recorded"
+                        if not ups and not (d == 0 and none):
+                            bad_step = True
+                            why = "the position is not carried to the " \
+                                "next hop"
     rep.check(not bad_step, "C11-R2", inst, "dimension 0 / 1 / 2 steps by "
-              "(s, 0) / (0, s) / (-s, -s) with s the sign of the magnitude",
-              construct="dimension steps", node=fn)
+              "(s, 0) / (0, s) / (-s, -s) with s the sign of the magnitude, "
+              "from the position the previous hop recorded",
+              construct="dimension steps", node=fn,
+              fail="the walk does not step by (s, 0) / (0, s) / (-s, -s) "
+                   "from the previous position: %s" % why)
     rep.check(not bad_label, "C11-R2", inst, "each step is labelled with "
               "Links.from_vector of exactly the (dx, dy) added to the "
               "position", construct="step label", node=fn)
@@ -215,20 +279,7 @@ def r2_walk(program, folder, rep):
     rep.check(hop[1] == lab_t or lab_t in alternatives(hop[1]), "C11-R2",
               inst, "the hop recorded carries that label",
               construct="sign", node=fn)
-    # wrap-around and order: update, wrap (when a size is given), record
-    okw = xname is not None
-    if okw:
-        for var, size in ((xname, "width"), (yname, "height")):
-            mods = [b_ for b_ in T.binds if b_.var == var and
-                    _within(b_.node.ast, hop_l) and
-                    T._bind_term(b_)[0] == "binop" and
-                    T._bind_term(b_)[1] == "Mod"]
-            okw = okw and len(mods) == 1 and \
-                T._bind_term(mods[0])[3] == ("param", size) and \
-                (is_none(("param", size)), False) in T.all_facts(
-                    mods[0].node) and cfg.reaches(mods[0].node, an) and \
-                not cfg.reaches(an, mods[0].node,
-                                avoid=[cfg.loop_head[id(hop_l)]])
+    okw = not bad_wrap
     rep.check(okw, "C11-R2",
               inst, "positions are wrapped modulo (width, height) and "
               "recorded after the step", construct="walk wrap", node=fn)
